@@ -322,6 +322,7 @@ def run_stack(cfg, strategy, max_steps=60000):
                 except BaseException as e:  # noqa
                     info['exit_error'] = repr(e)[:200]
             info['live_after_exit'] = sorted(t.name for t in S.threads if t.state != 'done' and t.name != 'main')
+            info['ledger_after_exit'] = len(server._uid_to_futures)
         res['outcome'] = ['finished']
 
     extra = [
